@@ -22,7 +22,7 @@ ASSUMPTIONS = [
 GOOD = ['{a}', '[c]', '{}', '[]']
 BAD = ['{x', 'x]', '[x}', '{x]', 'x', '']
 IDX = [0, 1, 2, -1, -2, 'len', 'len+3', '-len', '-len-1', '-len-3']
-INITS = [(), ('G1',), ('G1', 'K'), ('G1', 'G2')]
+INITS = [(), ('G1',), ('G1', 'K'), ('G1', 'G2'), ('G1', 'G2', 'K')]
 
 
 def op_templates(reduced=False):
